@@ -71,8 +71,15 @@ type c17Layout struct {
 	Desc     string
 }
 
-func c17GenLayout(rt *rapid.T) c17Layout {
+func c17GenLayout(rt *rapid.T) c17Layout { return c17GenLayoutFrom(rt, false) }
+
+// c17GenLayoutFrom: zeroFirst allows a range whose first block is 0 (the flows never build one - the first block is a
+// previous block + 1 - but the exported sub-range filter accepts it, and {0,0} doubles as "no range" in BlockRange)
+func c17GenLayoutFrom(rt *rapid.T, zeroFirst bool) c17Layout {
 	from := rapid.OneOf(rapid.Uint64Range(1, 5), rapid.Uint64Range(1, 1<<40), rapid.Just(uint64(1))).Draw(rt, "from")
+	if zeroFirst && rapid.IntRange(0, 3).Draw(rt, "firstBlockZero") == 0 {
+		from = 0
+	}
 	nblocks := rapid.IntRange(1, 30).Draw(rt, "nblocks")
 	l := c17Layout{From: from, To: from + uint64(nblocks) - 1}
 	dc := uint32(rapid.IntRange(0, 1000).Draw(rt, "dc0"))
@@ -245,11 +252,14 @@ func c17SizeLimit(rt *rapid.T, rec *ev.Recorder) {
 }
 
 func c17Range(rt *rapid.T, rec *ev.Recorder) {
-	l := c17GenLayout(rt)
+	l := c17GenLayoutFrom(rt, true)
 	p := &types.CertificateBuildParams{FromBlock: l.From, ToBlock: l.To, Bridges: l.Bridges, Claims: l.Claims, CreatedAt: 77, RetryCount: 2,
 		L1InfoTreeLeafCount: 9, CertificateType: types.CertificateTypeFEP}
 	lo := l.From + uint64(rapid.IntRange(0, int(l.To-l.From)).Draw(rt, "lo"))
 	hi := lo + uint64(rapid.IntRange(0, int(l.To-lo)).Draw(rt, "hi"))
+	if rapid.IntRange(0, 3).Draw(rt, "cutToFirstBlock") == 0 {
+		lo, hi = l.From, l.From
+	}
 	got, err := p.Range(lo, hi)
 	if err != nil {
 		rt.Fatalf("Range(%d,%d) of [%d,%d] failed: %v", lo, hi, l.From, l.To, err)
